@@ -1,0 +1,52 @@
+//go:build verif
+
+package tsm1
+
+import "go.uber.org/zap"
+
+// VerifSnap holds a cache snapshot that has been taken but not yet written: the state
+// Engine.WriteSnapshot is in between Cache.Snapshot() and writeSnapshotAndCommit().
+type VerifSnap struct {
+	closed []string
+	snap   *Cache
+}
+
+// VerifSnapshotBegin is the first half of Engine.WriteSnapshot (statement for statement):
+// close the WAL segment and take the cache snapshot.  Used by the verification harness
+// to observe reads while a snapshot is being flushed.
+func (e *Engine) VerifSnapshotBegin() (*VerifSnap, error) {
+	e.mu.Lock()
+	defer e.mu.Unlock()
+	var segments []string
+	var err error
+	if e.WALEnabled {
+		if err = e.WAL.CloseSegment(); err != nil {
+			return nil, err
+		}
+		segments, err = e.WAL.ClosedSegments()
+		if err != nil {
+			return nil, err
+		}
+	}
+	retained := e.Cache.hasRetainedSnapshot()
+	snapshot, err := e.Cache.Snapshot()
+	if err != nil {
+		return nil, err
+	}
+	if retained {
+		segments = e.snapshotSegments
+	} else {
+		e.snapshotSegments = segments
+	}
+	return &VerifSnap{closed: segments, snap: snapshot}, nil
+}
+
+// VerifSnapshotCommit is the second half of Engine.WriteSnapshot.
+func (e *Engine) VerifSnapshotCommit(s *VerifSnap) error {
+	if s.snap.Size() == 0 {
+		e.Cache.ClearSnapshot(true)
+		return nil
+	}
+	s.snap.Deduplicate()
+	return e.writeSnapshotAndCommit(zap.NewNop(), s.closed, s.snap)
+}
